@@ -69,8 +69,20 @@ def interrupt_programs(draw):
 
 
 @st.composite
+def until_exact_cases(draw):
+    """`Environment(t0).run(until=u)` for start times and stop dates that are no binary fractions: the run stops at u,
+    not at t0 + (u - t0); a step due exactly at u is not executed"""
+    t0 = draw(st.sampled_from([0, 0.3, -3, 0.1, 7.7, -0.7, 1e9 + 0.1]))
+    u = t0 + draw(st.sampled_from([0.1, 0.6, 0.9, 1.3, 2.7, 3.1]))
+    u = draw(st.sampled_from([u, round(u, 1), round(u, 1) + 0.2]))
+    return {'until_exact': [t0, u], 'period': draw(st.sampled_from([0.1, 0.3, 1]))}
+
+
+@st.composite
 def programs(draw, tier):
     big = tier == 'thorough'
+    if draw(st.integers(0, 19)) == 0:
+        return draw(until_exact_cases())
     if draw(st.integers(0, 6)) == 0:
         return draw(cond_programs())
     if draw(st.integers(0, 9)) == 0:
@@ -159,6 +171,11 @@ def programs(draw, tier):
         prog['cb_interrupts'] = [[draw(st.integers(0, nev - 1)), draw(st.sampled_from(names)), draw(st.sampled_from(['cb', None, 3]))]
                                  for _ in range(draw(st.integers(1, 2)))]
         own = [(s_['ev'], p_['name']) for p_ in procs for s_ in p_['steps'] if s_['op'] == 'succeed']
+        last = [(p_['steps'][-1]['ev'], p_['name']) for p_ in procs if p_['steps'] and p_['steps'][-1]['op'] == 'succeed']
+        if last and draw(st.booleans()):
+            # ... also when triggering the event was its last action: the process has ended, the interrupt is ignored
+            k, pn = draw(st.sampled_from(last))
+            prog['cb_interrupts'].append([k, pn, 'late'])
         if own and draw(st.booleans()):
             # the callback interrupts the very process that triggered the event (the one that ran last)
             k, pn = draw(st.sampled_from(own))
@@ -210,7 +227,41 @@ class C18(Check):
     def strategy(self, tier):
         return programs(tier)
 
+    def until_exact(self, case):
+        out = Outcome()
+        out.evals = 1
+        t0, u = case['until_exact']
+        if not (u > t0):
+            raise InvalidCase('until')
+        from usim.py import Environment
+        seen = []
+
+        def ticker(env):
+            while True:
+                seen.append(env.now)
+                yield env.timeout(case['period'])
+        p = Probe(b_step=20000, b_total=200000)
+        _TLS.stack.append(p)
+        try:
+            env = Environment(t0)
+            env.process(ticker(env))
+            env.run(until=u)
+        except BaseException as e:      # noqa
+            out.fail('run', 'until_exact:%s' % type(e).__name__, 'Environment(%r).run(until=%r) raised %r' % (t0, u, e))
+            return out
+        finally:
+            _TLS.stack.pop()
+        if env.now != u:
+            out.fail('run', 'until_exact:now', 'Environment(%r).run(until=%r) stopped at %r' % (t0, u, env.now))
+        if seen and (seen[0] != t0 or any(t >= u for t in seen)):
+            out.fail('run', 'until_exact:steps', 'Environment(%r).run(until=%r): the process ran at %r' % (t0, u, [seen[0], seen[-1]]))
+        out.nontrivial = True
+        out.features.add('until_exact')
+        return out
+
     def run_case(self, prog, tier='quick'):
+        if 'until_exact' in prog:
+            return self.until_exact(prog)
         out = Outcome()
         out.evals = 2
         sys.unraisablehook = vlib.interp._unraisable
